@@ -252,6 +252,8 @@ def _drive(sc, make_sampler, objective_factory, ev):
                 return t.state.name
         return "UNKNOWN"
 
+    if sc.get("zombie"):
+        study.ask()        # a worker that died right after ask(): a RUNNING trial without any parameter, for ever
     dead = False
     for seg in sc["segments"]:
         if dead:
@@ -440,6 +442,8 @@ def gen_bf(ctx, shape, fam, names_mode=None):
     elif r < 0.08 or (has_nan and r < 0.7):      # a stored NaN comes back as a NEW object per trial
         sc["storage"] = "journal"
     if fam == "bf-main":
+        if rng.random() < 0.25:
+            sc["zombie"] = 1
         if L >= 3 and rng.random() < 0.3:
             for j in rng.sample(range(0, L - 1), rng.randint(1, min(2, L - 1))):
                 sc.setdefault("crash", {})[str(j)] = rng.choice(["crash", "ki"])
